@@ -46,6 +46,7 @@ type Job struct {
 	PreAudit   bool              `json:"pre_audit,omitempty"`
 	ForceOrder map[string]int    `json:"force_order,omitempty"`
 	StaleAudit map[string]string `json:"stale_audit,omitempty"` // path -> tag value: a stale <path>.audit.json (tag stale=<value>) is left where the data file is gone
+	StaleTmp   []string          `json:"stale_tmp,omitempty"`   // paths: a leftover <path>.audit.json.tmp (a LONGER record, valid JSON) of a run killed between writing it and the rename
 	StatFault *ReadFaultSpec `json:"stat_fault,omitempty"` // the Nth successful stat of a file with this suffix answers ENOENT (lagging file system)
 	ReadFault *ReadFaultSpec `json:"read_fault,omitempty"` // the Nth successful read of a file with this suffix fails with EMFILE
 	XDev  string `json:"xdev,omitempty"` // this directory is on another device: renames across its boundary fail with EXDEV
@@ -242,6 +243,10 @@ func (r *runner) setup() {
 		os.MkdirAll(filepath.Dir(p), 0777)
 		os.WriteFile(p+".audit.json", []byte(`{"ID":"stale","ProcessName":"earlier","Command":"earlier run","Params":{},"Tags":{"stale":"`+v+`"},"StartTime":"0001-01-01T00:00:00Z","FinishTime":"0001-01-01T00:00:00Z","ExecTimeNS":-1,"OutFiles":{},"Upstream":{}}`), 0644)
 	}
+	for _, p := range r.job.StaleTmp {
+		os.MkdirAll(filepath.Dir(p), 0777)
+		os.WriteFile(p+".audit.json.tmp", []byte(`{"ID":"killed","ProcessName":"earlier","Command":"`+strings.Repeat("earlier attempt ", 200)+`","Params":{},"Tags":{},"StartTime":"0001-01-01T00:00:00Z","FinishTime":"0001-01-01T00:00:00Z","ExecTimeNS":-1,"OutFiles":{},"Upstream":{}}`), 0644)
+	}
 	r.preStat = statAll(".")
 	if r.job.SeedDir != "" && r.seedTree == nil {
 		r.seedTree = vs.ReadTree(r.job.SeedDir)
@@ -408,6 +413,9 @@ func runWorkflowJob(job *Job, res *Result) {
 	}
 	if len(job.StaleAudit) > 0 {
 		res.Scenario += "/stale-audit-files"
+	}
+	if len(job.StaleTmp) > 0 {
+		res.Scenario += "/leftover-audit-temp-files"
 	}
 	if job.StatFault != nil {
 		res.Scenario += fmt.Sprintf("/stat-fault=%s%s:%d+%d", job.StatFault.Suffix, job.StatFault.Match, job.StatFault.Nth, job.StatFault.Count)
